@@ -352,3 +352,10 @@ def run(cx, chk):
     check_order(cx, chk)
     check_pure(cx, chk)
     check_routes(cx, chk)
+    # the macro route's expansion and the build-script route's output for the same text denote the same parser / types
+    from . import lift_rules
+    mt = [i.name for i in cx.instances() if i.crate.name == "simple"]
+    if mt:
+        lift_rules.check_twin(cx, chk, "C16.twin", mt[0], "corpus:macro_twin", "peginate! vs Compile", floor=1)
+    else:
+        chk.anchor_missing("C16.twin", "macro test instance")
